@@ -506,6 +506,7 @@ type Contract struct {
 	Params   []string
 	Results  []string
 	FreeVars []string
+	FreeVarTypes []string
 	Requires []*Clause
 	Ensures  []*Clause
 	Ghosts   []GhostDecl
@@ -927,7 +928,41 @@ func parseSpecFile(path string) (*SpecFile, error) {
 			case "trusted":
 				cur.Trusted = true
 			case "freevars":
-				cur.FreeVars = splitNames(r.text)
+				// freevars (name Type, name Type, ...): contract-local names for captured variables, bound by type
+				// (the type must be unique among the closure's captured variables), falling back to the source name
+				text := strings.TrimSpace(r.text)
+				text = strings.TrimSuffix(strings.TrimPrefix(text, "("), ")")
+				depth := 0
+				start := 0
+				var parts []string
+				for i, c := range text {
+					switch c {
+					case '(', '[', '{':
+						depth++
+					case ')', ']', '}':
+						depth--
+					case ',':
+						if depth == 0 {
+							parts = append(parts, text[start:i])
+							start = i + 1
+						}
+					}
+				}
+				parts = append(parts, text[start:])
+				for _, p := range parts {
+					p = strings.TrimSpace(p)
+					if p == "" {
+						continue
+					}
+					i := strings.IndexAny(p, " \t")
+					if i < 0 {
+						cur.FreeVars = append(cur.FreeVars, p)
+						cur.FreeVarTypes = append(cur.FreeVarTypes, "")
+						continue
+					}
+					cur.FreeVars = append(cur.FreeVars, p[:i])
+					cur.FreeVarTypes = append(cur.FreeVarTypes, strings.TrimSpace(p[i:]))
+				}
 			}
 		}
 	}
